@@ -1,5 +1,7 @@
 import NssVerif.Model.StagedWriter
 import NssVerif.Lemmas.StagedWriter
+import NssVerif.Gen.Src.C14
+import NssVerif.Lemmas.StagedWriterSrc
 
 /-!
 # C17 — staged output is prefix-consistent at stage boundaries and after stage failure
@@ -119,5 +121,78 @@ example :
     FreshFrom true (run true (⟨[], [("SIMTIME", 0)]⟩ : Tab Nat Nat) [.addCols [("a", 1)]]) [.addMeta "OMCINT" 2] ∧
     (run true (⟨[], [("SIMTIME", 0)]⟩ : Tab Nat Nat) [.addCols [("a", 1)]]).file = some ⟨[("a", 1)], [("SIMTIME", 0)]⟩ := by
   simp [FreshFrom, run, step, init, hasKey]
+
+/-! ### source tie: the writer operations of `compute` as regenerated from the Python source (`Gen/Src/C14.lean`, harness/orchtrans.py)
+
+`Gen.Src.C14.ops target optical radio noSurvivors` is assembled on every run from the statements the reader recognises in
+`compute()` of the working tree, in source order (stage calls with `store=sw` resolved to the column names in the source of
+the callee, direct `sw(...)` / `sw.add_meta(...)` calls, the guards on the mode and channel flags, the early return when no
+event survives); `writerCall` / `writerAddMeta` are the two methods of the local writer class as read.  The theorems below
+are about THOSE definitions. -/
+
+/-- for every flag combination the operations read from the source are the model's stage sequence -/
+theorem src_ops_eq_model (t o r : Bool) : Gen.Src.C14.ops t o r false = stageSequence t o r := by
+  cases t <;> cases o <;> cases r <;> rfl
+
+/-- when no event survives the run stops after the first boundary (the geometry columns) -/
+theorem src_ops_no_survivors (t o r : Bool) : Gen.Src.C14.ops t o r true = (stageSequence t o r).take 1 := by
+  cases t <;> cases o <;> cases r <;> rfl
+
+/-- the number of writer boundaries per configuration, counted on the source: 5 common, 5 per channel, one more per channel in
+target mode (15 in a default diffuse run, 17 in target mode, 10 with one channel) -/
+theorem src_boundaries (t o r : Bool) :
+    (Gen.Src.C14.ops t o r false).length = 5 + (if o then 5 + t.toNat else 0) + (if r then 5 + t.toNat else 0) := by
+  cases t <;> cases o <;> cases r <;> rfl
+
+/-- all column names and all header keys of the source's sequence are pairwise distinct, for every flag combination -/
+theorem src_names_nodup (t o r ns : Bool) : ((Gen.Src.C14.ops t o r ns).flatMap boundaryNames).Nodup := by
+  cases t <;> cases o <;> cases r <;> cases ns <;> decide +kernel
+
+/-- no header key a stage writes is one of the keys `results_table.init` writes up front, nor starts with the prefix of the
+configuration keys — compared without regard to case, as FITS keywords are -/
+theorem src_keys_fresh_wrt_init (t o r ns : Bool) :
+    ∀ k ∈ (Gen.Src.C14.ops t o r ns).flatMap keyNames,
+      (k.toList.map Char.toUpper) ∉ Gen.Src.C14.initKeys.map (fun s => s.toList.map Char.toUpper)
+      ∧ ∀ p ∈ Gen.Src.C14.initKeyPrefixes, ¬ (p.toList.map Char.toUpper) <+: (k.toList.map Char.toUpper) := by
+  cases t <;> cases o <;> cases r <;> cases ns <;> decide +kernel
+
+/-- both methods of the writer, as read from the source, change the table first and then rewrite the file when staging is on
+(the `addCols` / `addMeta` steps of the model) -/
+theorem src_writer_shape :
+    Gen.Src.C14.writerCall = ["add_columns", "write_if_staged"] ∧ Gen.Src.C14.writerAddMeta = ["set_meta", "write_if_staged"] := by
+  decide
+
+/-- the source's sequence never fails on a duplicate column: started on an empty table (any initial header) it runs to the
+end and the table then holds the columns of all its boundaries, in order -/
+theorem src_run_ok (w t o r ns : Bool) (cv : String → γ) (hv : String → μ) (hdr0 : List (String × μ)) :
+    (run w ⟨[], hdr0⟩ ((Gen.Src.C14.ops t o r ns).map (realise cv hv))).failed = false
+    ∧ (run w ⟨[], hdr0⟩ ((Gen.Src.C14.ops t o r ns).map (realise cv hv))).tab.cols
+        = ((Gen.Src.C14.ops t o r ns).flatMap colNames).map fun n => (n, cv n) := by
+  cases t <;> cases o <;> cases r <;> cases ns <;>
+    simp [Gen.Src.C14.ops, realise, run, init, step, hasKey, colNames]
+
+/-- **the file-is-prefix clause about the source's sequence**: for every flag combination, any column and header values, any
+initial table whose header has none of the stage keys, and any boundary (`pre` = the writer calls completed so far), the file
+on disk is a prefix of the table at the end of the run — `FreshFrom` is discharged from the distinctness of the source's keys -/
+theorem src_file_is_prefix (t o r ns : Bool) (cv : String → γ) (hv : String → μ) (t0 : Tab γ μ)
+    (h0 : ∀ k ∈ (Gen.Src.C14.ops t o r ns).flatMap keyNames, hasKey k t0.hdr = false)
+    (pre post : List (Op γ μ)) (hsplit : pre ++ post = (Gen.Src.C14.ops t o r ns).map (realise cv hv))
+    (f : Tab γ μ) (hf : (run true t0 pre).file = some f) :
+    f.Prefix (run true t0 ((Gen.Src.C14.ops t o r ns).map (realise cv hv))).tab := by
+  rw [← hsplit]
+  refine file_is_prefix t0 pre post f ?_ hf
+  have hk : opKeys (pre ++ post) = (Gen.Src.C14.ops t o r ns).flatMap keyNames := by
+    rw [hsplit, opKeys_realise]
+  have hn : (opKeys (pre ++ post)).Nodup := by
+    rw [hk]
+    cases t <;> cases o <;> cases r <;> cases ns <;> decide +kernel
+  exact freshFrom_append true pre post (init t0)
+    (freshFrom_of_nodup true (pre ++ post) (init t0) hn (by rw [hk]; exact h0))
+
+/-- non-vacuity: the hypotheses of `src_file_is_prefix` are met by the default diffuse run after its first seven boundaries -/
+example : (run true (⟨[], [("SIMTIME", 0)]⟩ : Tab Nat Nat)
+      (((Gen.Src.C14.ops false true true false).map (realise (fun _ => 1) (fun _ => 2))).take 7)).file ≠ none
+    ∧ ∀ k ∈ (Gen.Src.C14.ops false true true false).flatMap keyNames, hasKey k [("SIMTIME", 0)] = false := by
+  decide +kernel
 
 end C17
